@@ -13,6 +13,19 @@ CHECKS = {
    technique="Lean 4 theorems over a model translated from range.h + differential correspondence",
    design="4/C18"),
 }
+CHECKS["C02"] = dict(
+   text="Lean 4 proof, for an operator-precedence model of the Expression grammar whose table is regenerated from parser.y / lexer.l / "
+        "keywords.cpp on every run: parse(render_min t) = t and parse(render_full t) = t for every tree over the full operator set "
+        "(unary, binary, assignment family, inline-if, indexing, field access, calls, builtin functions, quantifiers, rate; unbounded size), "
+        "any redundant parentheses, alias / unary-plus / imply laws, exact-or-rejected integer literals, and equality (by decide) of the "
+        "generated table with a hand-written reference operator table. The model parser is compared with the real parser on every operator "
+        "pair/triple, random trees, mutated token strings and boundary literals; the reference table decides disagreements and yields the replay.",
+   note="Trusted: Lean kernel, axioms propext/Quot.sound/Classical.choice, translate/exprgrammar.py, harness/c02.cpp, the reference table "
+        "Spec/OperatorTable.lean (hand-written from the UPPAAL language reference). That bison's LALR automaton behaves as the "
+        "operator-precedence model is validated by the correspondence, not proved. Double literals: nearest-double conversion is tested "
+        "against Python float(), not proved. Identifier binding is C07. New (4.x) syntax only.",
+   technique="Lean 4 round-trip theorem for a Pratt model over a table translated from parser.y + differential correspondence",
+   design="4/C02")
 NOT_APPLICABLE = {}
 ALL = ["C%02d" % i for i in range(1, 21)]
 PENDING = "check not built yet in this revision (work in progress, see DESIGN.md section 8 order of work)"
